@@ -58,10 +58,45 @@ def v3_process(key, packet):
         return canon_exc(e)
 
 
+class _ReplyingTransport:
+    """fake transport: answers the first write with a prepared packet (delivered through data_received)"""
+
+    def __init__(self, proto, reply):
+        self.proto, self.reply, self.written = proto, reply, []
+
+    def get_extra_info(self, name):
+        return ("0.0.0.0", 0)
+
+    def is_closing(self):
+        return False
+
+    def close(self):
+        pass
+
+    def write(self, data):
+        self.written.append(bytes(data))
+        if self.reply is not None:
+            r, self.reply = self.reply, None
+            self.proto.data_received(r)
+
+
 def v3_local_key(key, data):
-    p = v3_proto(None)
+    """what the client derives from a handshake response payload `data` under `key`.  Reached through the protocol's
+    own `authenticate()` (a handshake response packet carrying `data` answers the handshake request), NOT by calling
+    the private helper that computes it: renaming that helper must not matter."""
+    import asyncio
+    data = bytes(data)
+    if len(data) + 2 > 0xFFFF:
+        return "err:auth"
+    p = lan._LanProtocolV3()
+    packet = b"\x83\x70" + len(data).to_bytes(2, "big") + b"\x20\x01" + b"\x00\x00" + data
+    p.connection_made(_ReplyingTransport(p, packet))
+
+    async def go():
+        await p.authenticate(b"\x01" * 64, key)
+        return p._local_key
     try:
-        with memoryview(bytes(data)) as mv:
-            return hx(p._get_local_key(key, mv))
+        k = asyncio.run(go())
+        return hx(k)
     except Exception as e:  # noqa
         return canon_exc(e)
